@@ -82,28 +82,34 @@ impl MuxStream {
     #[tracing::instrument(skip_all, level = "trace", fields(flow_id = %format_args!("{:08x}", self.flow_id)))]
     #[inline]
     pub fn poll_for_push(&mut self, cx: &mut Context<'_>) -> Poll<usize> {
-        let Some(next) = ready!(self.rx_frame_rx.poll_recv(cx)) else {
-            trace!("stream has been closed");
-            // See `tokio::sync::mpsc`#clean-shutdown
-            self.rx_frame_rx.close();
-            // There should be no code path sending more frames after an EOF
-            // If this assertion fails, some code path is sending frames after EOF
-            // and thus causing loss of data.
-            // However, this is not an inconsistent state so we should not
-            // panic a production setup.
-            debug_assert!(self.rx_frame_rx.try_recv().is_err());
-            return Poll::Ready(0);
-        };
-        // Putting no data into the buffer is EOF, and other code should
-        // already ensure that such frames are filtered out.
-        debug_assert!(!next.is_empty());
-        assert!(
-            self.buf.is_empty(),
-            "`poll_fill_buf_inner` should not be called unless the buffer is empty"
-        );
-        self.buf = next;
-        self.increment_psh_recvd_since();
-        Poll::Ready(self.buf.len())
+        loop {
+            let Some(next) = ready!(self.rx_frame_rx.poll_recv(cx)) else {
+                trace!("stream has been closed");
+                // See `tokio::sync::mpsc`#clean-shutdown
+                self.rx_frame_rx.close();
+                // There should be no code path sending more frames after an EOF
+                // If this assertion fails, some code path is sending frames after EOF
+                // and thus causing loss of data.
+                // However, this is not an inconsistent state so we should not
+                // panic a production setup.
+                debug_assert!(self.rx_frame_rx.try_recv().is_err());
+                return Poll::Ready(0);
+            };
+            assert!(
+                self.buf.is_empty(),
+                "`poll_fill_buf_inner` should not be called unless the buffer is empty"
+            );
+            // The frame occupied a slot of our receive window whether or not it
+            // carries data, so it always counts towards the next `Acknowledge`.
+            self.increment_psh_recvd_since();
+            // Putting no data into the buffer is EOF to the user, so an empty
+            // `Push` frame is skipped instead of being handed over.
+            if next.is_empty() {
+                continue;
+            }
+            self.buf = next;
+            return Poll::Ready(self.buf.len());
+        }
     }
 
     /// Get a reference to the internal buffer.
@@ -264,6 +270,10 @@ mod tokio_io_impls {
             cx: &mut Context<'_>,
             buf: &[u8],
         ) -> Poll<io::Result<usize>> {
+            if buf.is_empty() {
+                // An empty `Push` frame would look like EOF to the peer
+                return Poll::Ready(Ok(0));
+            }
             ready!(self.as_ref().poll_write_push(cx, buf)).ok_or(BrokenPipe)?;
             trace!("sent a frame");
             Poll::Ready(Ok(buf.len()))
@@ -297,6 +307,10 @@ mod tokio_io_impls {
             for buf in bufs {
                 total_len += buf.len();
                 slices.push(CowBytes::Temporary(buf));
+            }
+            if total_len == 0 {
+                // An empty `Push` frame would look like EOF to the peer
+                return Poll::Ready(Ok(0));
             }
             let Some(()) = ready!(self.poll_obtain_write_permission(cx)) else {
                 return Poll::Ready(Err(io::ErrorKind::BrokenPipe.into()));
